@@ -900,6 +900,54 @@ def np_where(E, fv, st, node, prog):
     return STuple([arr])
 
 
+def mask_select(E, fv, st, base, mask, node, prog):
+    """a[mask] with a 1-D boolean mask over the first axis: the rows with a True mask, in order.
+    Result R has BCOUNT(mask, 0, n) rows and  mask[p] ==> R[BCOUNT(mask, 0, p)] == a[p]."""
+    USED.add("boolean mask selection a[mask] along axis 0: the selected rows in order (row BCOUNT(mask,0,p) of the result is row p of a)")
+    if fv.arr_ndim(st, mask) != 1:
+        _err("mask selection needs a 1-D mask")
+    n = fv.arr_shape(st, mask)[0]
+    bshp = fv.arr_shape(st, base)
+    if prog:
+        fv.oblige("shape-match", fv.stmt_anchor(node), bshp[0] == n, st, node)
+    mt0 = fv.arr_term(st, mask)
+    mt = fv.fresh("mask", z3.ArraySort(I, B))
+    p = fv.fresh_int("p")
+    st.assume(z3.ForAll([p], z3.Select(mt, p) == z3.Select(mt0, p), patterns=[z3.Select(mt, p)]))
+    sd = E.db.specs.get("BCOUNT")
+    if sd is None:
+        _err("spec BCOUNT missing")
+    named_mask = SArrVal("b1", [n], {"v": mt})
+    cnt = E.spec_app(fv, st, sd, [named_mask, SInt(0), SInt(n)]).e
+    st.assume(z3.And(cnt >= 0, cnt <= n))
+    bo = st.heap[base.loc]
+    comps = {}
+    for c, t in bo.comps.items():
+        src = nested_select(t, base.prefix)
+        r = fv.fresh("msel_" + c, src.sort())
+        rank_p = E.spec_app(fv, st, sd, [named_mask, SInt(0), SInt(p)]).e
+        st.assume(z3.ForAll([p], z3.Implies(z3.And(p >= 0, p < n, z3.Select(mt, p)), z3.Select(r, rank_p) == z3.Select(src, p)), patterns=[z3.Select(mt, p)]))
+        comps[c] = r
+    # every result row is a selected row: ghost source index msel_src<k>(q)
+    fv.counter += 1
+    srcf = z3.Function("msel_src!%d" % fv.counter, I, I)
+    q = fv.fresh_int("q")
+    rank_s = E.spec_app(fv, st, sd, [named_mask, SInt(0), SInt(srcf(q))]).e
+    st.assume(z3.ForAll([q], z3.Implies(z3.And(q >= 0, q < cnt), z3.And(srcf(q) >= 0, srcf(q) < n, z3.Select(mt, srcf(q)), rank_s == q)), patterns=[srcf(q)]))
+    for c, r in comps.items():
+        src = nested_select(bo.comps[c], base.prefix)
+        st.assume(z3.ForAll([q], z3.Implies(z3.And(q >= 0, q < cnt), z3.Select(r, q) == z3.Select(src, srcf(q))), patterns=[z3.Select(r, q)]))
+    res = fv.new_loc(st, bo.dtype, [cnt] + list(bshp[1:]), comps, name="msel")
+    if "v" in comps and not is_float_dtype(bo.dtype) and not is_bool_dtype(bo.dtype):
+        fv.assume_dtype_range(st, bo.dtype, comps["v"], len(bshp))
+    # ghost names: the mask as an array value and the result, for use in lemmas
+    k = sum(1 for x in st.env if x.startswith("msel_mask"))
+    st.env["msel_mask%d" % k] = named_mask
+    st.funcs = dict(st.funcs)
+    st.funcs["msel_src%d" % k] = srcf
+    return res
+
+
 def np_random_choice(E, fv, st, node, prog):
     (a,) = _args(fv, st, node, prog, 1)
     USED.add("np.random.choice(a) on a non-empty 1-D array: an element of a")
